@@ -238,3 +238,19 @@ func specCompare(x, y *lv, yHole bool) int {
 	}
 	return -1
 }
+
+// specContainsCore: the Contains decision without any rectangle prefilter (contains_core of
+// Proofs/C07_Relations.v), by brute force.
+func specContainsCore(x, y *lv) bool {
+	if x.kind != 2 || y.kind != 2 {
+		return x.kind == 1 || y.kind == 0
+	}
+	cr, sh := specCrossContains(x, y)
+	if cr {
+		return false
+	}
+	if sh {
+		return true
+	}
+	return x.loop.ContainsPoint(y.at(0)) && !y.loop.ContainsPoint(x.at(0))
+}
